@@ -39,10 +39,11 @@ CTX = {"x": "X", "y": "Y", "flag1": True, "flag0": False}
 
 
 class G:
-    def __init__(self, r, depth):
+    def __init__(self, r, depth, allow_wrong=True):
         self.r = r
         self.maxdepth = depth
         self.n = 0
+        self.allow_wrong = allow_wrong
 
     def uid(self):
         self.n += 1
@@ -159,7 +160,7 @@ class G:
             how = r.choice(["expr", "expr", "concat", "capture", "self"])
             if how == "capture" and d["buffered"]:
                 how = "expr"
-            args = self.call_args(d["sig"], avail, wrong=r.random() < 0.03)
+            args = self.call_args(d["sig"], avail, wrong=self.allow_wrong and r.random() < 0.03)
             if r.random() < 0.08:
                 bufd = [e for e in plain if e is not d and not e["sig"]]
                 if bufd and args and args[0][0] == "pos":
@@ -190,8 +191,8 @@ class G:
         return [("T", "t%d" % self.uid())]
 
 
-def gen_doc(r, depth):
-    g = G(r, depth)
+def gen_doc(r, depth, allow_wrong=True):
+    g = G(r, depth, allow_wrong)
     ndefs = r.randint(1, 4)
     defs = [g.make_def(i, ndefs) for i in range(ndefs)]
     g.fill_bodies(defs)
